@@ -76,6 +76,9 @@ def observe (pcs : List PatternChar) (text : List Char) : String × String :=
       else if gm != (pat true true false false).isMatch text then "FAIL:is_match-vs-glob"
       else if ((substrings text).any (globMatch ast)) != (pat false false false false).isMatch text then
         "FAIL:unanchored-vs-glob"
+      -- shortest/longest with multi-character collating elements is outside the defined notation
+      -- (POSIX locale has none; which of `a` / `ab` a bracket takes first is unspecified): not compared
+      else if hasSeq ast then "ok"
       else match trims.find? (fun (sd, ln) => specTrim sd ln ast text != trimApply sd ln pcs text) with
         | some (sd, ln) => s!"FAIL:trim-{repr sd}-{repr ln}"
         | none => "ok"
